@@ -46,6 +46,20 @@ DIALECT_SENSITIVE = [
     "from t | sort {a, -b} | select {a}",
     "from t | take 0",
     "from t | derive x = (a | math.abs) | filter x >= 1.5e2",
+    # relations given as raw SQL: the compiler parses the text to infer its columns, and identifier quoting
+    # ([a], `a`, "a") is read differently by different SQL grammars
+    "from s\"SELECT [a], [b] FROM t\" | derive c = a + 1",
+    "from s\"SELECT `a`, `b` FROM t\" | derive c = a + 1",
+    "from s\"SELECT \\\"a\\\", \\\"b\\\" FROM t\" | derive c = a + 1",
+    "from s\"SELECT a, b FROM t\" | derive c = a + 1 | filter c > 2",
+    "from s\"SELECT [a], [b] FROM t\"",
+    "from s\"SELECT `a` FROM t\" | join u (==a) | select {u.x}",
+    "from s\"SELECT [a] FROM t\" | filter a > 1",
+    "from t | join side:left y = s\"SELECT [id], [v] FROM u\" (t.id == y.id) | select {t.id, y.v}",
+    "let r = s\"SELECT TOP 3 [a] FROM t\"\nfrom r | derive b = a * 2",
+    "from s\"SELECT a::int AS a, b FROM t\" | derive c = a + 1",
+    "from s\"SELECT a, b FROM t LIMIT 3\" | take 2",
+    "from (read_csv \"a.csv\") | take 2",
 ]
 
 OPT_UNKNOWN = "sql.nosuch"
